@@ -1145,6 +1145,11 @@ func CheckSignatureFromKey(publicKey interface{}, algo SignatureAlgorithm, signe
 		}
 		return
 	case ed25519.PublicKey:
+		// ed25519.Verify panics on a key of the wrong length; such a key can
+		// reach this point from a caller-constructed key or parsed wire data.
+		if len(pub) != ed25519.PublicKeySize {
+			return errors.New("x509: Ed25519 public key has the wrong length")
+		}
 		if !ed25519.Verify(pub, digest, signature) {
 			return errors.New("x509: Ed25519 verification failure")
 		}
@@ -1415,11 +1420,17 @@ func parsePublicKey(algo PublicKeyAlgorithm, keyData *publicKeyInfo) (interface{
 		if len(p) > ed25519.PublicKeySize {
 			return nil, errors.New("x509: trailing data after Ed25519 data")
 		}
+		if len(p) < ed25519.PublicKeySize {
+			return nil, errors.New("x509: Ed25519 public key is too short")
+		}
 		return p, nil
 	case X25519:
 		p := X25519PublicKey(asn1Data)
 		if len(p) > 32 {
 			return nil, errors.New("x509: trailing data after X25519 public key")
+		}
+		if len(p) < 32 {
+			return nil, errors.New("x509: X25519 public key is too short")
 		}
 		return p, nil
 	default:
